@@ -20,6 +20,24 @@ GROUPS = {
     'div': Group('div', filt(True), defines=['VF_UF_ADDSUB'], cxx_defines=['FWD_INV'], **SRC),
     'inv0': Group('inv0', filt(False), defines=['VF_UF_ADDSUB'], **SRC),
 }
+from vf import cify
+def filt_inv(repo_src, dst):
+    f = extract.Filter(repo_src, dst)
+    f.check_macros()
+    ren = [('Goldilocks::fromU64', 'Goldilocks_fromU64'), ('Goldilocks::toU64', 'Goldilocks_toU64'), ('Goldilocks::sub', 'Goldilocks_sub'), ('Goldilocks::mul', 'Goldilocks_mul'), ('Goldilocks::isZero', 'Goldilocks_isZero')]
+    rules = [(r'Goldilocks::(fromU64|toU64|sub|mul|isZero)\(', r'Goldilocks_\1('), (r'\bElement\b', 'GElement'), (r'\(GElement &result, const GElement &in1\)', '(GElement *result, const GElement *in1)'),
+             (r'Goldilocks_isZero\(in1\)', 'Goldilocks_isZero(*in1)'), (r'Goldilocks_toU64\(in1\)', 'Goldilocks_toU64(*in1)'), (r'Goldilocks_fromU64\(result, t\);', '*result = Goldilocks_fromU64(t);'),
+             (r'cerr << [^;]*;', '/* diagnostic dropped */;'), (r'\br / newr\b', 'vf_udiv(r, newr)')]
+    whole = cify.cify(f, 'goldilocks_base_field.cpp', 'Goldilocks::inv', 'Goldilocks_inv', [], extra_rules=rules)
+    body, cond = cify.loop_body(whole, 0)
+    if cond.strip() != 'newr != 0' or 'vf_udiv(r, newr)' not in body:
+        raise extract.ExtractError('M2-body: Goldilocks::inv: loop condition / division not as expected (%r)' % cond)
+    frame = cify.cify(f, 'goldilocks_base_field.cpp', 'Goldilocks::inv', 'Goldilocks_inv', [], extra_rules=rules, cut_loops={0: 'vf_euclid_loop(&t, &r, &newt, &newr);'})
+    step = 'static void inv_step(uint64_t *pt, uint64_t *pr, uint64_t *pnewt, uint64_t *pnewr)\n{ uint64_t t = *pt, r = *pr, newt = *pnewt, newr = *pnewr; GElement q, aux1, aux2;\n' + body + '\n*pt = t; *pr = r; *pnewt = newt; *pnewr = newr; }\n'
+    f.note('M2-body', 'goldilocks_base_field.cpp', 1, 0, 0, 'Goldilocks::inv: while-body cut out as inv_step; whole loop outlined as vf_euclid_loop in the frame unit')
+    f.files = {'gen_inv.c': step + frame}
+    return f
+GROUPS['invm2'] = Group('invm2', filt_inv, c=['props/C10/contracts_inv.c'], repo_cpp=[])
 S = 'src/goldilocks_base_field_scalar.hpp'
 UNITS = [
     Unit('p_exp_v', 'exp', 'p_exp_v', harness='hl_p_exp_v', light=True, flags=['--unwind', '66', '--unwinding-assertions'], loops='unwind 66 (at most 64 iterations: operand width), unwinding assertions on = termination',
@@ -31,6 +49,8 @@ for n, d in (('p_div_v', 'div(const Element&,const Element&)'), ('p_div', 'div(E
     UNITS.append(Unit(n, 'div', n, replace=['w_mul_v', 'w_inv_v'], functions=['Goldilocks::%s over the contracts of mul and inv (%s)' % (d, S)]))
 for n, d in (('p_inv_v', 'inv(const Element&)'), ('p_inv', 'inv(Element&,const Element&)')):
     UNITS.append(Unit(n, 'inv0', n, never_returns=True, functions=['Goldilocks::%s on an operand congruent to zero: never returns, reaches exit (src/goldilocks_base_field.cpp)' % d]))
+for _n, _d in (('inv_frame', 'initial state and result of the Euclid loop (loop outlined)'), ('inv_step', 'one iteration of the Euclid loop body, in field terms')):
+    UNITS.append(Unit(_n, 'invm2', 'Goldilocks_inv', harness='hl_' + _n, light=True, functions=['Goldilocks::inv (src/goldilocks_base_field.cpp): %s [C-ified]' % _d]))
 _g, _u = import_units('C01', lambda n: re.match(r'w_mul(_oa|_ob|_ab|_oab|_v)?$|lemma_reduce_congruence$', n))
 GROUPS.update(_g); UNITS += _u
 NATIVE_FLAGS = ['-mavx2']
@@ -38,7 +58,7 @@ NATIVE_SOURCES = ['props/C10/wrappers.cpp']
 TRUSTED_BASE = [
     'lemma pow_binary (Lean): the right-to-left square-and-multiply recurrence equals b^e in every commutative monoid (e = 0 gives 1)',
     'caller-facing contract of Goldilocks::mul over the uninterpreted field product (enforced in C01 in witness form)',
-    'NOT PROVED: the contract of Goldilocks::inv for operands not congruent to zero (a * inv(a) == 1, termination of the extended-Euclid loop). It is ASSUMED where div and the cubic extension use it. Reason: each iteration needs a 64-bit division and a 64x64 multiplication as exact integer facts, which no back end available here decides; see DESIGN.md C10',
+    'PARTLY decided for Goldilocks::inv on non-zero operands: frame (loop starts from (0,p,1,canon a), result = final t) and one-step field contract (units inv_frame, inv_step); NOT PROVED: the contract of Goldilocks::inv for operands not congruent to zero (a * inv(a) == 1, termination of the extended-Euclid loop). It is ASSUMED where div and the cubic extension use it. Reason: each iteration needs a 64-bit division and a 64x64 multiplication as exact integer facts, which no back end available here decides; see DESIGN.md C10',
     'exit() is modelled as non-returning; CBMC C++ front end, cadical; extraction rules under coverage.extraction',
 ]
 ASSUMPTIONS = ['p prime (only needed for the assumed inv contract)']
@@ -49,7 +69,7 @@ MANIFEST_ENTRY = dict(
     text='exp(b,e) for all 64-bit (b,e) incl. e=0 and its termination, div/operator/ for all operands over the mul and inv contracts, and the refusal of inv on both representations of zero are proved. The functional contract of inv on non-zero operands is NOT proved by this check (assumed; see level_note).',
     note='inv(a)*a == 1 and termination of the Euclid loop are assumed, not proved (64-bit division/multiplication facts are beyond the available solvers); p prime assumed.')
 
-LEMMAS = ['pow_binary', 'powAux_eq']
+LEMMAS = ['pow_binary', 'powAux_eq', 'euclid_step']
 def extra_checks(rn, tier, ginfos):
     from vf import lean
     import os, json
